@@ -128,7 +128,7 @@ def decode(kind, value):
             raise ValueError('incomplete directory')
         tree = json.loads((p / 'tree.json').read_text())
         if kind == 'dir':
-            want = {'tree.json', 'sub', 'sub/more.txt'} | ({f"run_{tree['#gen']}.txt"} if tree.get('#gen') is not None else set())
+            want = {'tree.json', 'sub', 'sub/more.txt', 'started.txt'} | ({f"run_{tree['#gen']}.txt"} if tree.get('#gen') is not None else set())
             have = {str(q.relative_to(p)) for q in p.rglob('*')}
             if have != want:
                 raise ValueError(f'directory result holds {sorted(have)}, the run that produced it wrote {sorted(want)}')
@@ -197,6 +197,9 @@ def body(task, ins, params):
         entry['param_reprs'] = {p.name: p.value_repr() for p in task.params.values()}
     except Exception:  # noqa
         entry['param_reprs'] = None
+    if kind in ('dir', 'continues') and task._config is not None:
+        # the run has begun to fill its work directory when it fails (what is set aside is not empty)
+        (task.get_data_object().dir / 'started.txt').write_text('s')
     plan = CTRL.get('raise')
     if plan is not None and _matches(plan, task, tree):
         entry['raised'] = True
